@@ -583,13 +583,12 @@ def gen_cache_ops(rng):
             ops.append(["seed", nme])
         else:
             # small rectangle inside / across the chosen tile: elevation through the real path
+            # (interior of the tile, or across its east border: at most two real tiles alive)
             k0, j0 = m.tile_origin(nme)
-            T = k0 + rng.choice([0, 5, 3000, m.TILE_ROWS - 2])
-            L = j0 + rng.choice([0, 7, 2000, m.TILE_COLS - 2])
-            if L + 2 > m.N_COLS or T + 2 > m.N_ROWS:
-                L, T = j0 + 7, k0 + 5
-            if L == 0:
-                L = 7        # keep clear of the -180 wrap (decided in the elev shards)
+            T = k0 + rng.choice([5, 3000, m.TILE_ROWS - 7])
+            L = j0 + rng.choice([7, 2000, m.TILE_COLS - 1])
+            if L + 2 > m.N_COLS:
+                L = j0 + 7
             rect = [lat_of(T + 2), lon_of(L), lat_of(T), lon_of(L + 2)]
             ops.append(["elev", rect])
     return {"kind": "cache", "ops": ops, "via_env": rng.random() < 0.5}
